@@ -183,10 +183,44 @@ class LockModel(Model):
         except Exception as e:
             return ('raise', type(e).__name__, str(e)[:80])
 
+    def _node_sets(self):
+        if self.flavour == 'shared':
+            gs = split_by_graph_id(world.shared_store().graphs)
+        else:
+            gs = {k: g for k, g in world.disjoint_store().graphs.items() if len(g.nodes)}
+        return {k: sorted((repr(d.get('NodeID')) for _, d in g.nodes(data=True))) for k, g in gs.items()}
+
+    def observe(self):
+        return self._node_sets()
+
+    def invariant(self):
+        """sequential half of the allocation clause: in every reachable state (incl. after failed imports, duplicate ids and
+        delete-then-reimport) the next node created in any resident graph is a NEW node - no identifier is handed out twice"""
+        v = []
+        fl = self.flavour
+        pre = self._node_sets()
+        snap = self.snapshot()
+        for gid in sorted((g for g in pre if isinstance(g, str)), key=repr):
+            out = self.apply(('add_blank', gid))
+            post = self._node_sets()
+            if out[0] == 'ok':
+                if post.get(gid) != sorted(pre[gid] + [repr('blank')]):
+                    v.append((f'alloc/{fl}/next-node-overwrote', f'[{fl}] creating a node in {gid} (NodeIDs {pre[gid]}) left {post.get(gid)}'))
+                for other in pre:
+                    if other != gid and post.get(other) != pre[other]:
+                        v.append((f'alloc/{fl}/next-node-disturbed-other', f'[{fl}] creating a node in {gid} changed {other}: {pre[other]} -> {post.get(other)}'))
+            self.restore(snap)
+        return v
+
     def check(self, pre, ev, outcome):
         v = []
         lk = self.lock
         fl = self.flavour
+        if ev[0] in ('add_node', 'add_blank') and outcome[0] == 'ok':
+            post = self._node_sets()
+            new = repr(ev[2]) if ev[0] == 'add_node' else repr('blank')
+            if post.get(ev[1]) != sorted(pre.get(ev[1], []) + [new]):
+                v.append((f'alloc/{fl}/{ev[0]}-overwrote', f'[{fl}] {ev}: graph held {pre.get(ev[1])}, now {post.get(ev[1])}'))
         if lk.held:
             v.append((f'lock/{fl}/{ev[0]}:left-held', f'[{fl}] after {ev} ({outcome}) the store lock is still held'))
         if lk.acquires != lk.releases:
